@@ -6,6 +6,7 @@ package main
 
 import (
 	"bytes"
+	"time"
 
 	"github.com/bronlabs/bron-crypto/pkg/base/serde"
 	"github.com/bronlabs/bron-crypto/pkg/mpc/session"
@@ -86,6 +87,12 @@ type niCase struct {
 	simulateFS func(which int, e []byte) (proof []byte, aBytes []byte, err error)
 	// FS wire encoding of the proof d with the k-th component (0 a, 1 e, 2 z) taken from o
 	spliceFS func(d, o *decoded, k int) ([]byte, error)
+	// re-encodings of the decoded proof with a changed number of components / structure
+	restructure func(comp compiler.Name, d *decoded) map[string][]byte
+	// re-encoding with the challenge of repetition i replaced
+	withChallenge func(comp compiler.Name, d *decoded, i int, e []byte) []byte
+	// interactive compilers (sigma.Prover/Verifier, zk.Prover/Verifier); "" = as expected
+	runInteractive func(kind string, cs ctxSpec, r *vh.Rng) string
 }
 
 type fsWire[A any, Z any] struct {
@@ -175,7 +182,9 @@ func mkCase[X sigma.Statement, W sigma.Witness, A sigma.Statement, S sigma.State
 		if i >= len(as) || i >= len(zs) {
 			return false
 		}
+		t0 := time.Now()
 		vh.Safely(func() { ok = proto.Verify(xs[which], as[i], e, zs[i]) == nil })
+		tSigma += time.Since(t0)
 		return ok
 	}
 	c.simulateFS = func(which int, e []byte) ([]byte, []byte, error) {
@@ -197,6 +206,90 @@ func mkCase[X sigma.Statement, W sigma.Witness, A sigma.Statement, S sigma.State
 			wv.Z = o.tz.([]Z)[0]
 		}
 		return serde.MarshalCBOR(wv)
+	}
+	enc := func(comp compiler.Name, as []A, es [][]byte, zs []Z) []byte {
+		var b []byte
+		var err error
+		switch comp {
+		case fiatshamir.Name:
+			b, err = serde.MarshalCBOR(&fsWire[A, Z]{A: as[0], E: es[0], Z: zs[0]})
+		case fischlin.Name:
+			b, err = serde.MarshalCBOR(&fischlin.Proof[A, Z]{A: as, E: es, Z: zs})
+		default:
+			b, err = serde.MarshalCBOR(&randfischlin.Proof[A, Z]{A: as, E: es, Z: zs})
+		}
+		if err != nil {
+			return nil
+		}
+		return b
+	}
+	c.withChallenge = func(comp compiler.Name, d *decoded, i int, e []byte) []byte {
+		es := append([][]byte{}, d.e...)
+		es[i] = e
+		return enc(comp, d.ta.([]A), es, d.tz.([]Z))
+	}
+	c.restructure = func(comp compiler.Name, d *decoded) map[string][]byte {
+		out := map[string][]byte{}
+		put := func(k string, b []byte) {
+			if b != nil {
+				out[k] = b
+			}
+		}
+		as, es, zs := d.ta.([]A), d.e, d.tz.([]Z)
+		put("reencoded", enc(comp, as, es, zs))
+		e0 := es[0]
+		withE := func(e []byte) []byte { return c.withChallenge(comp, d, 0, e) }
+		put("e-truncated", withE(e0[:len(e0)-1]))
+		put("e-extended", withE(append(append([]byte{}, e0...), 0)))
+		put("e-empty", withE([]byte{}))
+		if comp != randfischlin.Name { // for randomised Fischlin see the leading-zero search
+			put("e-leading-zero", withE(append([]byte{0}, e0...)))
+		}
+		if comp == fiatshamir.Name {
+			type noZ struct {
+				A A      `cbor:"A"`
+				E []byte `cbor:"E"`
+			}
+			type extra struct {
+				A A      `cbor:"A"`
+				E []byte `cbor:"E"`
+				Z Z      `cbor:"Z"`
+				Y []byte `cbor:"Y"`
+			}
+			if b, err := serde.MarshalCBOR(&noZ{A: as[0], E: e0}); err == nil {
+				put("missing-response", b)
+			}
+			if b, err := serde.MarshalCBOR(&extra{A: as[0], E: e0, Z: zs[0], Y: []byte{1}}); err == nil {
+				put("extra-field", b)
+			}
+			if b, err := serde.MarshalCBOR([]any{as[0], e0, zs[0]}); err == nil {
+				put("array-instead-of-map", b)
+			}
+			return out
+		}
+		n := len(as)
+		if n >= 2 {
+			put("one-repetition-fewer", enc(comp, as[:n-1], es[:n-1], zs[:n-1]))
+			put("one-repetition-more", enc(comp, append(append([]A{}, as...), as[n-1]), append(append([][]byte{}, es...), es[n-1]), append(append([]Z{}, zs...), zs[n-1])))
+			put("challenge-list-shorter", enc(comp, as, es[:n-1], zs))
+			put("response-list-shorter", enc(comp, as, es, zs[:n-1]))
+			put("single-repetition", enc(comp, as[:1], es[:1], zs[:1]))
+			sa := append([]A{}, as...)
+			se := append([][]byte{}, es...)
+			sz := append([]Z{}, zs...)
+			sa[0], sa[1], se[0], se[1], sz[0], sz[1] = sa[1], sa[0], se[1], se[0], sz[1], sz[0]
+			put("repetitions-swapped", enc(comp, sa, se, sz))
+			// repetition 1 replaced by a copy of repetition 0 (a valid sigma transcript at the wrong index)
+			ca := append([]A{}, as...)
+			ce := append([][]byte{}, es...)
+			cz := append([]Z{}, zs...)
+			ca[1], ce[1], cz[1] = ca[0], ce[0], cz[0]
+			put("repetition-copied", enc(comp, ca, ce, cz))
+		}
+		return out
+	}
+	c.runInteractive = func(kind string, cs ctxSpec, r *vh.Rng) string {
+		return runInteractive(kind, proto, x, w, x2, cs, r)
 	}
 	return c
 }
